@@ -79,4 +79,19 @@ HistFrom(e, k, pre, removed, prevW, prevP, acc) ==
 Judge_api_history(e) ==
   IF ~WellFormedRec(e.init) THEN {"MACHINERY:malformed_record"}
   ELSE HistFrom(e, 1, ToNamed(e.init), {}, WiringViolations(e.init), PinViolations(e.init, {}), {})
+
+(* C16  remove_unloaded(inputs): e.c (pre), e.post, e.ret (returned names), e.post2 / e.ret2 (second application) *)
+Judge_remove_unloaded(e) ==
+  IF e.exc # "" THEN {"raised:" \o e.exc} ELSE
+  IF ~(WellFormedRec(e.c) /\ WellFormedRec(e.post) /\ WellFormedRec(e.post2)) THEN {"MACHINERY:malformed_record"} ELSE
+  LET pre == ToNamed(e.c)
+      post == ToNamed(e.post)
+      exp == DeadSet(pre, e.inputs)
+      deleted == pre.nodes \ post.nodes
+  IN {"deleted_live_or_protected_node:" \o n : n \in deleted \ exp}
+     \cup {"dead_node_kept:" \o n : n \in exp \ deleted}
+     \cup (IF post = RemoveNodes(pre, deleted) THEN {} ELSE {"remaining_nodes_changed"})
+     \cup (IF Range(e.ret) = deleted THEN {} ELSE {"returned_nodes_differ_from_deleted"})
+     \cup (IF ToNamed(e.post2) = post /\ Len(e.ret2) = 0 THEN {} ELSE {"not_idempotent"})
+     \cup (IF post = RemoveUnloadedAsBuilt(pre, e.inputs).st THEN {} ELSE {"DRIFT:differs_from_as_built_model"})
 =============================================================================
